@@ -591,9 +591,13 @@ class Dispatcher:
         return operation.position_in_job < job_next_op_idx
 
     def is_ongoing(self, scheduled_operation: ScheduledOperation) -> bool:
-        """Checks if the given operation is currently being processed."""
+        """Checks if the given operation is currently being processed.
+
+        It is ``True`` exactly for the scheduled operations returned by
+        :meth:`ongoing_operations`, i.e. those that are not completed yet.
+        """
         current_time = self.current_time()
-        return scheduled_operation.start_time <= current_time
+        return scheduled_operation.end_time > current_time
 
     def next_operation(self, job_id: int) -> Operation:
         """Returns the next operation to be scheduled for the given job.
